@@ -135,6 +135,14 @@ func main() {
 			jobs[i].Scenario.Number()
 		}
 	}
+	for i := range jobs {
+		if jobs[i].Seconds == 0 {
+			jobs[i].Seconds = 45
+			if tier == "thorough" {
+				jobs[i].Seconds = 600
+			}
+		}
+	}
 	results := runJobs(jobs)
 	summarize(p, r, jobs, results)
 	os.Exit(r.Finish())
@@ -332,7 +340,33 @@ func (w *workerProc) run(j *Job) *JobResult {
 		w.dead = true
 		return &JobResult{Name: j.name(), Err: "worker write: " + err.Error()}
 	}
-	line, err := w.out.ReadBytes('\n')
+	type rd struct {
+		line []byte
+		err  error
+	}
+	rc := make(chan rd, 1)
+	go func() {
+		l, e := w.out.ReadBytes('\n')
+		rc <- rd{l, e}
+	}()
+	var line []byte
+	var err error
+	select {
+	case x := <-rc:
+		line, err = x.line, x.err
+	case <-time.After(time.Duration((j.Seconds*2+120)*float64(time.Second))):
+		// the worker ignored its own deadline: a hang inside one execution
+		_ = w.cmd.Process.Kill()
+		x := <-rc
+		line, err = x.line, x.err
+		if err == nil {
+			err = fmt.Errorf("watchdog")
+		}
+		w.dead = true
+		_ = w.cmd.Wait()
+		w.cmd = nil
+		return &JobResult{Name: j.name(), Err: "worker exceeded twice its time budget (hang inside an execution?): " + truncate(w.stderr.String(), 2000)}
+	}
 	if err != nil {
 		// the worker died: under the race build this is how a data race is reported
 		w.dead = true
